@@ -240,3 +240,324 @@ Print Assumptions c06_stable_content_partial.
 Print Assumptions c06_joint_inv_ack_then_truncate_partial.
 Print Assumptions c06_joint_inv_process_all.
 Print Assumptions c06_joint_recv_loop.
+
+(* ================================================================================================
+   Step-level and trace-level theorems (Conn/C06_Step.v, Conn/C06_StepLemmas.v): the boolean predicates of
+   Conn/C06_Pred.v hold of EVERY step of the model from a state satisfying a proved invariant, and of
+   every trace from vsock_new. *)
+From Utp Require Import Rx.Rx Conn.VSockRun Conn.VObs Conn.C10_Pred Conn.VSock_Lemmas Conn.C17_StepLemmas
+  Conn.C06_StepLemmas Conn.C06_Step.
+
+(* ---- c06_joint_ok: the joint invariant of ring and table, after every Pending poll of every trace.
+   Invariant (kept by every event): JI w s = the segment-table / segment-size invariants, segmented bytes
+   within the ring (LB), removed_offset = bytes truncated from the ring, and bytes truncated + bytes in
+   the ring = w, the bytes accepted from the writer so far. *)
+Theorem c06_joint_ok_poll_invariant : forall (CC : Type) (cci : cc_iface CC) (w : Z) (s s' : vsock CC),
+  JI w s -> poll cci s = (s', PollPending) -> JI w s'.
+Proof. exact @poll_JI. Qed.
+
+Theorem c06_joint_ok_from_invariant : forall (CC : Type) (cci : cc_iface CC) (ops : list vop) (w : Z)
+    (s : vsock CC),
+  JI w s -> joint_trace w (ftrace cci s ops) = true.
+Proof. exact @joint_trace_ok. Qed.
+
+Theorem c06_joint_ok_every_trace : forall (CC : Type) (cci : cc_iface CC) (cfg : vconfig)
+    (mk : Z -> Z -> CC) (c : vconfig) (s0 : vsock CC) (ops : list vop),
+  vconfig_ok c = true -> vsock_new cci mk c = Some s0 -> c06_joint_ok cfg (ftrace cci s0 ops) = true.
+Proof. exact @c06_joint_ok_trace. Qed.
+
+Print Assumptions c06_joint_ok_poll_invariant.
+Print Assumptions c06_joint_ok_from_invariant.
+Print Assumptions c06_joint_ok_every_trace.
+
+(* ---- c06_cap_ok: the retry cap, after EVERY event (every state, every event, every poll result:
+   Pending, Ready, error, panic).  CAPc cfg s = every segment of the table shows between 0 and
+   max_retransmissions retransmissions (CAP), and the option the connection carries is cfg's.  It is an
+   invariant: kept by every event, established by vsock_new whenever 0 <= vc_max_retx. *)
+Theorem c06_cap_ok_every_step : forall (CC : Type) (cci : cc_iface CC) (cfg : vconfig) (s : vsock CC) (o : vop),
+  CAPc cfg s -> CAPc cfg (vstep_state cci s o) /\ c06_cap_ok cfg (VSock_Lemmas.fstep_of cci s o) = true.
+Proof. exact @c06_cap_ok_step. Qed.
+
+Theorem c06_cap_initial : forall (CC : Type) (cci : cc_iface CC) (mk : Z -> Z -> CC) (c : vconfig) (s0 : vsock CC),
+  0 <= vc_max_retx c -> vsock_new cci mk c = Some s0 -> CAPc c s0.
+Proof. exact @CAPc_vsock_new. Qed.
+
+Theorem c06_cap_ok_every_trace : forall (CC : Type) (cci : cc_iface CC)
+    (mk : Z -> Z -> CC) (c : vconfig) (s0 : vsock CC) (ops : list vop),
+  0 <= vc_max_retx c -> vsock_new cci mk c = Some s0 ->
+  forallb (c06_cap_ok c) (ftrace cci s0 ops) = true.
+Proof. exact @c06_cap_ok_trace. Qed.
+
+(* the poll-level form: CAP after every poll whatever its result; the poll that gives up with
+   MaxRetransmissionsReached leaves an undelivered segment AT the cap in the table *)
+Theorem c06_cap_poll : forall (CC : Type) (cci : cc_iface CC) (s s' : vsock CC) (r : poll_result),
+  CAP s -> poll cci s = (s', r) ->
+  CAP s' /\ (r = PollReadyErr ErrMaxRetransmissionsReached -> MAXW s').
+Proof. exact @poll_CAP. Qed.
+
+Print Assumptions c06_cap_ok_every_step.
+Print Assumptions c06_cap_initial.
+Print Assumptions c06_cap_ok_every_trace.
+Print Assumptions c06_cap_poll.
+
+(* ---- c06_emitted_live_ok: FALSE as stated (a poll that restarts after popping a failed MTU probe processes
+   queued ACKs after its first iteration sent data); TRUE of every poll the transport cannot answer with
+   EMSGSIZE (no path limit in force, no EMSGSIZE in the script) -- the guard is on the EVENTS of the trace,
+   c06_emitted_live_ok_g (Conn/C06_Pred2.v) carries it. *)
+From Utp Require Import Conn.C06_Pred2 Conn.C10_Proofs Conn.VSock_LemmasPipe.
+
+Theorem c06_emitted_live_ok_restart_refuted :
+  exists w cfg ops,
+    vconfig_ok cfg = true /\ Forall op_msg_ok ops /\
+    forallb (c06_emitted_live_ok cfg) (wtrace w cfg ops) = false /\
+    c06_emitted_live_ok_g cfg (wtrace w cfg ops) = true /\
+    forallb (c06_cap_ok cfg) (wtrace w cfg ops) = true.
+Proof. exact emitted_live_restart_refuted. Qed.
+
+(* NW = the poll's clock is env.now(); OUT = every ST_DATA in the poll's output names a segment that is in
+   the table, not delivered, sent, of that payload size, (re)transmitted at this poll's clock *)
+Theorem c06_emitted_live_poll_strict : forall (CC : Type) (cci : cc_iface CC) (s s' : vsock CC),
+  LB 0 s -> EF s -> poll cci s = (s', PollPending) -> NW s' /\ OUT s'.
+Proof. exact @poll_OUT_strict. Qed.
+
+Theorem c06_emitted_live_ok_guarded_step : forall (CC : Type) (cci : cc_iface CC) (cfg : vconfig)
+    (s : vsock CC) (sc : list send_outcome),
+  LB 0 s -> v_emsg_limit s = None -> script_legit sc = true ->
+  c06_emitted_live_ok cfg (VSock_Lemmas.fstep_of cci s (VoPoll sc)) = true.
+Proof. exact @c06_emitted_live_ok_poll. Qed.
+
+Theorem c06_emitted_live_ok_other_events : forall (CC : Type) (cci : cc_iface CC) (cfg : vconfig)
+    (s : vsock CC) (o : vop),
+  (forall sc, o <> VoPoll sc) -> c06_emitted_live_ok cfg (VSock_Lemmas.fstep_of cci s o) = true.
+Proof. exact @c06_emitted_live_ok_other. Qed.
+
+(* LB 0 is an invariant of every trace (Conn/C17_StepLemmas.v vstep_LB, vsock_new_LB) *)
+Theorem c06_emitted_live_ok_g_every_trace : forall (CC : Type) (cci : cc_iface CC) (cfg : vconfig)
+    (mk : Z -> Z -> CC) (c : vconfig) (s0 : vsock CC) (ops : list vop),
+  vconfig_ok c = true -> vsock_new cci mk c = Some s0 ->
+  c06_emitted_live_ok_g cfg (ftrace cci s0 ops) = true.
+Proof. exact @c06_emitted_live_ok_g_trace. Qed.
+
+Print Assumptions c06_emitted_live_ok_restart_refuted.
+Print Assumptions c06_emitted_live_poll_strict.
+Print Assumptions c06_emitted_live_ok_guarded_step.
+Print Assumptions c06_emitted_live_ok_other_events.
+Print Assumptions c06_emitted_live_ok_g_every_trace.
+
+(* ---- c06_backoff_ok: after EVERY event the RTO is within [200 ms, 60 s]; the poll in which the RTO part
+   retransmitted a data segment emitted exactly that ST_DATA, doubled the estimator's RTO (capped; untouched
+   for an MTU probe) and restarted the timer at now + RTO -- whatever else the poll did (restarts included).
+   Invariants: ti (Conn/VSock_LemmasTimers.v) and LB 0 (Conn/C17_StepLemmas.v), both kept by every event. *)
+From Utp Require Import Conn.VSock_LemmasTimers Conn.C06_StepLemmas2.
+
+Theorem c06_backoff_ok_every_step : forall (CC : Type) (cci : cc_iface CC) (cfg : vconfig) (s : vsock CC) (o : vop),
+  ti s -> LB 0 s -> c06_backoff_ok cfg (VSock_Lemmas.fstep_of cci s o) = true.
+Proof. exact @c06_backoff_ok_step. Qed.
+
+Theorem c06_backoff_ok_every_trace : forall (CC : Type) (cci : cc_iface CC) (cfg : vconfig)
+    (mk : Z -> Z -> CC) (c : vconfig) (s0 : vsock CC) (ops : list vop),
+  vconfig_ok c = true -> vsock_new cci mk c = Some s0 ->
+  forallb (c06_backoff_ok cfg) (ftrace cci s0 ops) = true.
+Proof. exact @c06_backoff_ok_trace. Qed.
+
+(* the poll-level form: BC r0 rt0 s' = ti, the poll's clock is env.now(), and EITHER the RTO branch fired
+   (MF: one ST_DATA among non-data datagrams, naming a table segment; estimator = on_rto_timeout rt0, or rt0
+   for a probe; timer = now + RTO; counter = r0 + 1) OR the counter did not grow *)
+Theorem c06_backoff_poll : forall (CC : Type) (cci : cc_iface CC) (r0 : Z) (rt0 : rtt_state) (s s' : vsock CC),
+  ti s -> v_rto_retransmissions s = r0 -> v_rtte s = rt0 ->
+  poll cci s = (s', PollPending) -> BC r0 rt0 s'.
+Proof. exact @poll_backoff. Qed.
+
+(* what one send_tx_queue call does to the RTO counter *)
+Theorem c06_send_tx_queue_rto_counter : forall (CC : Type) (cci : cc_iface CC) (s s' : vsock CC) (u : unit),
+  send_tx_queue cci s = SOk s' u -> ti s -> stq_out s s'.
+Proof. exact @stq_mode. Qed.
+
+(* an RTT sample is taken only by a poll whose messages acknowledged something *)
+Theorem c06_incoming_path_rto_mode : forall (CC : Type) (cci : cc_iface CC) (s s' : vsock CC) (u : unit),
+  process_all_incoming_messages cci s = SOk s' u -> RB s ->
+  RB s' /\ v_now s' = v_now s /\
+  ((v_rto_retransmissions s' = v_rto_retransmissions s /\ v_rtte s' = v_rtte s /\ (NE s -> NE s')) \/
+   (v_rto_retransmissions s' = 0 /\ NE s')).
+Proof. exact @pim_mode. Qed.
+
+Print Assumptions c06_backoff_ok_every_step.
+Print Assumptions c06_backoff_ok_every_trace.
+Print Assumptions c06_backoff_poll.
+Print Assumptions c06_send_tx_queue_rto_counter.
+Print Assumptions c06_incoming_path_rto_mode.
+
+(* ---- c06_no_resend_acked ("a segment the peer has acknowledged, cumulatively or selectively, is never
+   retransmitted"): every ST_DATA of a poll -- WHATEVER the poll's result -- names, in the table as it was
+   before the poll, nothing or a segment not yet delivered.  Proved for the polls the transport cannot answer
+   with EMSGSIZE, with the tables before and after the poll within the wrap tolerance (the guard of
+   c06_no_resend_acked_t / _g, Conn/C06_Pred2.v).  DM t0 t: a delivered segment of t0 is either dropped from
+   the front of t or still in t, delivered, at the shifted index. *)
+Theorem c06_delivered_stays_delivered : forall (CC : Type) (cci : cc_iface CC) (s s' : vsock CC) (r : poll_result),
+  LB 0 s -> EF s -> poll cci s = (s', r) ->
+  match r with
+  | PollPanic => v_out s' = []
+  | _ => NW s' /\ OUT s' /\ DM (v_segs s) (v_segs s')
+  end.
+Proof. exact @poll_OUT_DM_strict_all. Qed.
+
+Theorem c06_no_resend_acked_guarded_step : forall (CC : Type) (cci : cc_iface CC) (cfg : vconfig)
+    (s : vsock CC) (sc : list send_outcome),
+  LB 0 s -> v_emsg_limit s = None -> script_legit sc = true ->
+  c06_no_resend_acked_t cfg (VSock_Lemmas.fstep_of cci s (VoPoll sc)) = true.
+Proof. exact @c06_no_resend_acked_t_poll. Qed.
+
+Theorem c06_no_resend_acked_g_every_trace : forall (CC : Type) (cci : cc_iface CC) (cfg : vconfig)
+    (mk : Z -> Z -> CC) (c : vconfig) (s0 : vsock CC) (ops : list vop),
+  vconfig_ok c = true -> vsock_new cci mk c = Some s0 ->
+  c06_no_resend_acked_g cfg (ftrace cci s0 ops) = true.
+Proof. exact @c06_no_resend_acked_g_trace. Qed.
+
+Print Assumptions c06_delivered_stays_delivered.
+Print Assumptions c06_no_resend_acked_guarded_step.
+Print Assumptions c06_no_resend_acked_g_every_trace.
+
+(* ---- c06_fast_retx_ok: the poll in which Recovering is entered (no RTO mode, transport writable)
+   retransmits the first undelivered segment when it lies within the recovery point.  Proved for the polls the
+   transport cannot answer with EMSGSIZE, under the guard of c06_fast_retx_ok_t (SACK depth not negative;
+   segments before the poll + index of the first undelivered one < 1024: the distance the sequence-number
+   comparison with high_rxt has to bridge).  HRI L = a Recovering phase entered while the poll processes its
+   messages has retransmitted nothing and its high_rxt is at most L segments below the left edge. *)
+From Utp Require Import Conn.C06_StepLemmas3.
+
+Theorem c06_fast_retransmit_in_send_tx_queue : forall (CC : Type) (cci : cc_iface CC) (s s' : vsock CC) (u : unit)
+    (rc : recovering) (f0 : for_sending) (rest : list for_sending),
+  send_tx_queue cci s = SOk s' u -> ti s ->
+  v_transport_pending s = false -> v_transport_pending s' = false -> v_rto_retransmissions s' = 0 ->
+  rv_phase (v_recovery s) = Recovering rc -> rc_total_retx rc = 0 ->
+  rec_items s rc = f0 :: rest ->
+  (exists more, v_out s' = more ++ data_pkt s (outgoing_header s) f0 :: v_out s) /\
+  (forall rc', rv_phase (v_recovery s') = Recovering rc' -> rc_recovery_point rc' = rc_recovery_point rc).
+Proof. exact @stq_fast. Qed.
+
+Theorem c06_recovery_entered_while_receiving : forall (CC : Type) (cci : cc_iface CC) (L : Z)
+    (s1 s2 : vsock CC) (h : chdr) (res : on_ack_result),
+  pim_ack cci s1 h = Some (s2, res) -> HRI L s1 -> HRI L s2.
+Proof. exact @pim_ack_HRI. Qed.
+
+Theorem c06_fast_retx_poll_strict : forall (CC : Type) (cci : cc_iface CC) (L : Z) (s s' : vsock CC),
+  LB 0 s -> ti s -> EF s -> is_recovering (v_recovery s) = false ->
+  len_z (ss_segs (v_segs s)) <= L ->
+  poll cci s = (s', PollPending) -> FC L s'.
+Proof. exact @poll_fast_strict. Qed.
+
+Theorem c06_fast_retx_ok_guarded_step : forall (CC : Type) (cci : cc_iface CC) (cfg : vconfig)
+    (s : vsock CC) (sc : list send_outcome),
+  LB 0 s -> ti s -> v_emsg_limit s = None -> script_legit sc = true ->
+  c06_fast_retx_ok_t cfg (VSock_Lemmas.fstep_of cci s (VoPoll sc)) = true.
+Proof. exact @c06_fast_retx_ok_t_poll. Qed.
+
+Theorem c06_fast_retx_ok_g_every_trace : forall (CC : Type) (cci : cc_iface CC) (cfg : vconfig)
+    (mk : Z -> Z -> CC) (c : vconfig) (s0 : vsock CC) (ops : list vop),
+  vconfig_ok c = true -> vsock_new cci mk c = Some s0 ->
+  c06_fast_retx_ok_g cfg (ftrace cci s0 ops) = true.
+Proof. exact @c06_fast_retx_ok_g_trace. Qed.
+
+Print Assumptions c06_fast_retransmit_in_send_tx_queue.
+Print Assumptions c06_recovery_entered_while_receiving.
+Print Assumptions c06_fast_retx_poll_strict.
+Print Assumptions c06_fast_retx_ok_guarded_step.
+Print Assumptions c06_fast_retx_ok_g_every_trace.
+
+(* ---- the guards of the step theorems are met by reachable steps: five RTO back-offs then the cap
+   (MaxRetransmissionsReached) on one trace; three duplicate ACKs and a fast retransmission on another *)
+Theorem c06_backoff_cap_nonvacuous :
+  exists w cfg ops,
+    vconfig_ok cfg = true /\ Forall op_msg_ok ops /\
+    Z.of_nat (length (filter rto_fired (wtrace w cfg ops))) = 5 /\
+    existsb gave_up (wtrace w cfg ops) = true /\
+    forallb (c06_backoff_ok cfg) (wtrace w cfg ops) = true /\
+    forallb (c06_cap_ok cfg) (wtrace w cfg ops) = true /\
+    c06_emitted_live_ok_g cfg (wtrace w cfg ops) = true /\
+    c06_no_resend_acked_g cfg (wtrace w cfg ops) = true /\
+    c06_joint_ok cfg (wtrace w cfg ops) = true.
+Proof. exact backoff_cap_nonvacuous. Qed.
+
+Theorem c06_fast_retx_nonvacuous :
+  exists w cfg ops,
+    vconfig_ok cfg = true /\ Forall op_msg_ok ops /\
+    existsb entered_recovery (wtrace w cfg ops) = true /\
+    c06_fast_retx_ok_g cfg (wtrace w cfg ops) = true /\
+    forallb (c06_fast_retx_ok cfg) (wtrace w cfg ops) = true.
+Proof. exact fast_retx_nonvacuous. Qed.
+
+Print Assumptions c06_backoff_cap_nonvacuous.
+Print Assumptions c06_fast_retx_nonvacuous.
+
+(* ---- session 6: the remaining trace predicates (Conn/C06_Step2.v, Conn/C06_Step2b.v) ---- *)
+From Utp Require Import Conn.C06_Step2 Conn.C06_Pred3 Conn.C06_Step2b.
+
+(* the phase IgnoringUntilRecoveryPoint rp ends with the poll that takes an acknowledgement reaching rp:
+   every trace of the model from vsock_new, no hypothesis on the configuration *)
+Theorem c06_rp_exit_ok_trace : forall CC (cci : cc_iface CC) cfg mk c (s0 : vsock CC) ops,
+  vsock_new cci mk c = Some s0 -> c06_rp_exit_ok cfg (ftrace cci s0 ops) = true.
+Proof. exact (@C06_Step2.c06_rp_exit_ok_trace). Qed.
+
+(* one poll: Established, Ignoring rp, a message reaching rp queued, retransmission timer not expired:
+   Pending with the transport writable leaves the phase (or the connection left Established) *)
+Theorem c06_poll_rp_exit : forall CC (cci : cc_iface CC) rp (s : vsock CC) sc s',
+  ti s -> v_state s = Established -> ign (v_recovery s) = Some rp ->
+  Exists (fun m => reaches_rp rp (m_hdr m) = true) (v_inbox s) ->
+  timer_expired (v_t_retransmit s) (v_env_now s) = false ->
+  poll cci (VSockRec.set_sends s sc) = (s', PollPending) ->
+  v_transport_pending s' = true \/ (v_state s' = Established -> ign (v_recovery s') = None).
+Proof. exact (@C06_Step2.poll_rp_exit). Qed.
+
+Theorem c06_rp_exit_nonvacuous :
+  exists w cfg ops,
+    vconfig_ok cfg = true /\ Forall op_msg_ok ops /\
+    existsb rp_exit_seen (wtrace w cfg ops) = true /\
+    c06_rp_exit_ok cfg (wtrace w cfg ops) = true.
+Proof. exact rp_exit_nonvacuous. Qed.
+
+Print Assumptions c06_rp_exit_ok_trace.
+Print Assumptions c06_poll_rp_exit.
+Print Assumptions c06_rp_exit_nonvacuous.
+
+(* ---- c06_stable_plen_ok: guarded forms (Conn/C06_Pred3.v) ----
+   (a) within one poll (the map starts empty at every poll): every trace, unconditional *)
+Theorem c06_stable_plen_ok_p_trace : forall CC (cci : cc_iface CC) cfg mk c (s0 : vsock CC) ops,
+  vconfig_ok c = true -> vsock_new cci mk c = Some s0 ->
+  c06_stable_plen_ok_p cfg (ftrace cci s0 ops) = true.
+Proof. exact (@C06_Step2b.c06_stable_plen_ok_p_trace). Qed.
+
+(* (b) across polls, with a map that forgets the numbers the table no longer names: PARTIAL.
+   Proved GIVEN SMH (over one EMSGSIZE-free poll from an LB state the table after the poll is the table before it
+   with d entries dropped from the front, and what stays keeps its size and stays a non-probe unless it was a
+   probe).  SMH itself is NOT proved: it needs pointwise size/probe-preservation lemmas for sack_phase,
+   recovery_on_ack, calc_pipe, on_sent, strip_delivered, pop_expired_mtu_probe, enqueue/segment_loop and a poll_H
+   walk like poll_OUT_DM_strict_all (Conn/C06_StepLemmas2.v). *)
+Theorem c06_stable_plen_ok_g_partial : forall CC (cci : cc_iface CC),
+  SMH cci ->
+  forall cfg mk c (s0 : vsock CC) ops,
+    vconfig_ok c = true -> vsock_new cci mk c = Some s0 ->
+    c06_stable_plen_ok_g cfg (ftrace cci s0 ops) = true.
+Proof. exact (@C06_Step2b.c06_stable_plen_ok_g_partial_SM). Qed.
+
+Theorem c06_stable_plen_nonvacuous :
+  exists w cfg ops,
+    vconfig_ok cfg = true /\ Forall op_msg_ok ops /\
+    forallb (fun st => poll_noemsg None st && tol_ok (fs_pre st) && tol_ok (fs_post st)) (wtrace w cfg ops) = true /\
+    (6 <=? Z.of_nat (length (data_seqs (wtrace w cfg ops)))) = true /\
+    forallb (fun q => q =? 101) (data_seqs (wtrace w cfg ops)) = true /\
+    c06_stable_plen_ok_g cfg (wtrace w cfg ops) = true /\
+    c06_stable_plen_ok cfg (wtrace w cfg ops) = true.
+Proof. exact stable_plen_g_nonvacuous. Qed.
+
+Theorem c06_stable_plen_p_nonvacuous :
+  exists w cfg ops,
+    vconfig_ok cfg = true /\ Forall op_msg_ok ops /\
+    forallb (fun st => poll_noemsg None st && tol_ok (fs_post st)) (wtrace w cfg ops) = true /\
+    (6 <=? Z.of_nat (length (data_seqs (wtrace w cfg ops)))) = true /\
+    c06_stable_plen_ok_p cfg (wtrace w cfg ops) = true.
+Proof. exact stable_plen_p_nonvacuous. Qed.
+
+Print Assumptions c06_stable_plen_ok_p_trace.
+Print Assumptions c06_stable_plen_ok_g_partial.
+Print Assumptions c06_stable_plen_nonvacuous.
+Print Assumptions c06_stable_plen_p_nonvacuous.
